@@ -22,6 +22,10 @@ func TestSweep(t *testing.T) {
 				for L := 0; L <= K; L++ {
 					Oracle.One(t, env, rec, "sweep", &Case{T: tn, C: C, L: L, K: K, C2: C, L2: L, K2: K})
 					Oracle.One(t, env, rec, "sweep", &Case{T: tn, C: C, L: L, K: K, C2: 2, L2: 1, K2: 3})
+					if C <= 4 {
+						Oracle.One(t, env, rec, "sweep", &Case{T: tn, C: C, L: L, K: K, C2: C, L2: L, K2: K, Via: 1 + (C+K+L)%2})
+						Oracle.One(t, env, rec, "sweep", &Case{T: tn, C: C, L: L, K: K, C2: 1, L2: 2, K2: 700, Via: 2 - (C+K+L)%2})
+					}
 				}
 			}
 		}
